@@ -23,7 +23,7 @@ from egverif.common import ddmin
 RULE = (
     "cases = histories of 60-200 ops mixing every public mutator (end assignment, add/remove from either side, "
     "explicit.link_*/unlink, adjacency builders on existing vertices, constructors) with queries (neighbors, find_links, "
-    "bft/dft_*/generator forms, bfs/dfs_*, basic_render) over 7 importable filter functions, NEIGHBOR_CACHING toggles at "
+    "bft/dft_*/generator forms, bfs/dfs_*, basic_render) over 13 filter callables (plain functions, closures of one factory, bound methods of one function, a falsy callable object, a functools.partial), NEIGHBOR_CACHING toggles at "
     "random points, same-process nrpickler reloads and fresh-interpreter continuations.  After every mutation every "
     "(vertex, direction, unknown, filter) key queried so far is re-queried.  Twin execution: the same history runs once "
     "with caching forced off and once following its flag/pickle schedule; the two logs are compared op by op.  "
@@ -61,6 +61,7 @@ class Gen5(gen.Gen):
                   "q_nb": 40, "q_fl": 5, "q_trav": 10, "q_search": 4, "q_render": 2, "cache": 5, "reload": 1})
         super().__init__(rng, "C01", w)
         self.queried = []
+        self.dup_uids = rng.random() < 0.4
 
     def g_adjdict(self, pool):
         if self.count(pool, "U") >= 4:
@@ -376,6 +377,12 @@ def prelude():
     muts += [[["mke", "E7", "DSub", "V3", "V0"]], [["mkv", "V7", "Vertex", ["E0"], []]],
              [["adjdict", "U7", "DirectedEdge", [["V0", ["V3"]], ["V3", ["V1", "V1"]]]]],
              [["adjmatrix", "U7", "DirectedEdge", ["V1", "V3"], [[0, 1], [1, 1]]]]]
+    # twins: distinct vertices with one uid (two loads of one pickle, Vertex(uid=n) twice) on one edge
+    twin = [["cache", True], ["mkv", "V0", "Vertex", [], [], "list", 7], ["mkv", "V1", "Vertex", [], [], "list", 7],
+            ["mkv", "V2", "Vertex", [], [], "list", 7], ["mkv", "V3", "Vertex", [], []],
+            ["mke", "E0", "DirectedEdge", "V0", "V1"], ["mke", "E1", "UnDirectedEdge", "V1", "V2"], ["mke", "E2", "OtherLink", "V2", "V0"]]
+    for m in muts:
+        yield twin + qs + m + qs
     for m in muts:
         yield base + qs + m + qs
         yield base + qs + [["cache", False]] + m + [["cache", True]] + qs
